@@ -61,6 +61,12 @@ def build():
                                    E('done', 'forall|k: int| 0 <= k < i ==> (if has_.bview().contains(k as u32) { (#[trigger] self.0@[k]).cv().mv() is None } else { self.0@[k] == old(self).0@[k] })'),
                                    E('wf', 'vec_wf(old(self))'),
                                    E('mask', 'vec_ok(old(self), has_.bview())')])})
+    u.fn(ST, ['impl<T> SharedGetMutStorage<T> for VecStorage<T>', 'fn shared_get_mut'], ret='r', props='C04 C06 C13', key='VecStorage::shared_get_mut',
+         impl_header=VI, mut_self=True,
+         rules=[('N3', r'unsafe \{ self\.0\.get_unchecked\(id as usize\) \}\.get\(\)', 'unsafe { vec_get_unchecked_mut(&mut self.0, id as usize) }.get_mut()')],
+         requires=[E('at', 'vec_at(old(self), id)')],
+         ensures=[E('val', '*r == vec_val(old(self), id) && vec_at(final(self), id) && vec_val(final(self), id) == *final(r)'),
+                  E('frame', 'final(self).0@.len() == old(self).0@.len() && forall|j: int| 0 <= j < old(self).0@.len() && j != id ==> #[trigger] final(self).0@[j] == old(self).0@[j]')])
     # ---------------- DefaultVecStorage
     u.struct(ST, ['struct DefaultVecStorage'], attr='#[verifier::reject_recursive_types(T)]')
     DH = 'impl<T> UnprotectedStorage<T> for DefaultVecStorage<T> where T: Default,'
@@ -74,6 +80,12 @@ def build():
          requires=[E('at', '(id as int) < self.0@.len()')],
          ensures=[E('val', '*r == def_val(self, id)')])
     u.fn(ST, [DH, 'fn get_mut'], ret='r', props='C04', key='DefaultVecStorage::get_mut', impl_header=DI, rules=N8 + N19,
+         requires=[E('at', '(id as int) < old(self).0@.len()')],
+         ensures=[E('val', '*r == def_val(old(self), id) && def_val(final(self), id) == *final(r)'),
+                  E('frame', 'final(self).0@.len() == old(self).0@.len() && forall|j: int| 0 <= j < old(self).0@.len() && j != id ==> #[trigger] final(self).0@[j] == old(self).0@[j]')])
+    u.fn(ST, ['impl<T> SharedGetMutStorage<T> for DefaultVecStorage<T> where T: Default,', 'fn shared_get_mut'], ret='r', props='C04 C06 C13', key='DefaultVecStorage::shared_get_mut',
+         impl_header=DI, mut_self=True,
+         rules=[('N3', r'unsafe \{ self\.0\.get_unchecked\(id as usize\) \}\.get\(\)', 'unsafe { vec_get_unchecked_mut(&mut self.0, id as usize) }.get_mut()')],
          requires=[E('at', '(id as int) < old(self).0@.len()')],
          ensures=[E('val', '*r == def_val(old(self), id) && def_val(final(self), id) == *final(r)'),
                   E('frame', 'final(self).0@.len() == old(self).0@.len() && forall|j: int| 0 <= j < old(self).0@.len() && j != id ==> #[trigger] final(self).0@[j] == old(self).0@[j]')])
